@@ -79,6 +79,9 @@ type Case struct {
 	//   dasn   DialAndSend(msgs...)
 	//   send   DialWithContext; Send(msgs...); Close            (the Client's own connection)
 	//   reset  DialWithContext; Send(first half); Reset; Send(second half); Close
+	//   conc   DialWithContext; Send(first message) whose body producer - running inside DATA - starts
+	//          `go Send(remaining messages)` on the same Client, waits 50 ms and goes on writing; Close when both
+	//          have returned.  Client.Send serialises (sendMutex): the observable is Send(first); Send(rest).
 	//   two    DialToSMTPClientWithContext twice (two smtp.Clients of one Client value, alive at the same time);
 	//          SendWithSMTPClient(first half) on the one, (second half) on the other; CloseWithSMTPClient both.
 	//          Each connection has its own server running the same script.
@@ -87,8 +90,19 @@ type Case struct {
 	Offset int
 }
 
-// Split is the number of messages of the first half (programs reset and two).
-func (c *Case) Split() int { return (len(c.Msgs) + 1) / 2 }
+// Split is the number of messages of the first batch (programs reset, two: the first half; conc: the first message).
+func (c *Case) Split() int {
+	if c.Prog == "conc" {
+		if len(c.Msgs) == 0 {
+			return 0
+		}
+		return 1
+	}
+	return (len(c.Msgs) + 1) / 2
+}
+
+// TwoBatches: the program calls Send twice on one connection.
+func (c *Case) TwoBatches() bool { return c.Prog == "reset" || c.Prog == "conc" }
 
 func (s MsgSpec) String() string {
 	from := "!"
@@ -304,7 +318,12 @@ func producerError(text string) error {
 
 // Build constructs a fresh Msg from its specification.  Date, Message-ID and the MIME boundary are
 // fixed so that two Msg values built from the same specification render to the same bytes.
-func Build(i int, s MsgSpec) *mail.Msg {
+// Build constructs a fresh Msg; see BuildHooked.
+func Build(i int, s MsgSpec) *mail.Msg { return BuildHooked(i, s, nil) }
+
+// BuildHooked: like Build; hook (if not nil) is called from inside the body producer - i.e. while the message is
+// being written into the DATA stream - after the first part of the body was written.
+func BuildHooked(i int, s MsgSpec, hook func()) *mail.Msg {
 	enc := mail.EncodingQP
 	switch s.Enc {
 	case 'b':
@@ -339,6 +358,9 @@ func Build(i int, s MsgSpec) *mail.Msg {
 		}
 		m.SetBodyWriter(mail.TypeTextPlain, func(w io.Writer) (int64, error) {
 			n, _ := w.Write(body[:k])
+			if hook != nil {
+				hook()
+			}
 			return int64(n), errProducer
 		})
 	case 'a', 'A':
@@ -357,7 +379,21 @@ func Build(i int, s MsgSpec) *mail.Msg {
 			m.AttachReadSeeker("file.bin", bytes.NewReader(att))
 		}
 	default:
-		m.SetBodyString(mail.TypeTextPlain, string(body))
+		if hook != nil {
+			// same bytes as SetBodyString, written in two parts with the hook in between
+			m.SetBodyWriter(mail.TypeTextPlain, func(w io.Writer) (int64, error) {
+				h := len(body) / 2
+				n1, err := w.Write(body[:h])
+				if err != nil {
+					return int64(n1), err
+				}
+				hook()
+				n2, err := w.Write(body[h:])
+				return int64(n1 + n2), err
+			})
+		} else {
+			m.SetBodyString(mail.TypeTextPlain, string(body))
+		}
 	}
 	return m
 }
@@ -439,6 +475,8 @@ type Result struct {
 	// connections, whose log interleaves both
 	Log    []LogEntry
 	HasLog bool
+	// program conc: the concurrent Send did not return within the time box
+	Deadlock bool
 	Msgs       []MsgResult
 	Trace      []smtpx.Event
 	Commits    []smtpx.Commit
@@ -680,6 +718,65 @@ func RunCase(c *Case) *Result {
 	ctx := context.Background()
 	guard(res, func() {
 		switch c.Prog {
+		case "conc":
+			if derr := cl.DialWithContext(ctx); derr != nil {
+				res.Err, res.RetKind = derr, "dial"
+				return
+			}
+			var rest []*mail.Msg
+			if len(msgs) > 1 {
+				rest = msgs[1:]
+			}
+			launched := false
+			done := make(chan struct{})
+			var panic2 interface{}
+			var err2 error
+			second := func() {
+				defer close(done)
+				defer func() { panic2 = recover() }()
+				err2 = cl.Send(rest...)
+			}
+			if len(msgs) > 0 {
+				// the message handed to Send carries the hook; its independent rendering (prerender) does not
+				msgs[0] = BuildHooked(c.Offset, c.Msgs[0], func() {
+					if !launched {
+						launched = true
+						go second()
+						time.Sleep(50 * time.Millisecond)
+					}
+				})
+			}
+			var sendErr error
+			func() {
+				defer func() {
+					if p := recover(); p != nil {
+						if launched {
+							<-done
+						}
+						_ = cl.Close()
+						panic(p)
+					}
+				}()
+				sendErr = cl.Send(msgs[:c.Split()]...)
+			}()
+			res.RetKind, res.Joined = classifySend(sendErr)
+			if !launched {
+				second() // the first message never reached its body producer: the second Send follows sequentially
+			}
+			select {
+			case <-done:
+			case <-time.After(60 * time.Second):
+				res.Deadlock = true
+			}
+			if !res.Deadlock {
+				if panic2 != nil {
+					_ = cl.Close()
+					panic(panic2)
+				}
+				res.RetKind2, res.Joined2 = classifySend(err2)
+			}
+			_ = cl.Close()
+			res.Err = sendErr
 		case "send", "reset":
 			if derr := cl.DialWithContext(ctx); derr != nil {
 				res.Err, res.RetKind = derr, "dial"
